@@ -70,11 +70,23 @@ impl<'l, Data> EventLoop<'l, Data> {
 fn dispatch_events_per_event_body(&mut self, event: PollEvent, data: &mut Data) -> (r: crate::Result<()>)
 //@ spec
     requires all_accept::<Data>(),
-//@ after <<let mut ret = disp.process_events(event.readiness, event.token, data)?;>>
+//@ entry
+    // ghost state: has the loop-global deferred-action cell been reset for this event, and what was in it
+    let ghost mut reset_done = false;
+//@ before <<let mut ret =>>
+            // C09 ("...including when event processing returns an error"): the cell is reset BEFORE a processing
+            // error can be propagated out of this body (defect F3, fixed in 0605ec0)
+            assert(reset_done); /*@props C09*/
+//@ after <<let mut ret =>>
             let ghost ret0 = ret;
+//@ after <<.pending_action .replace(PostAction::Continue)>>
+            proof { reset_done = true; }
 //@ before <<match ret {>>
-            // C09: the explicit return wins; a deferred request is used only when the source returned Continue
-            assert(ret == (if ret0 is Continue { pending_action } else { ret0 })); /*@props C09*/
+            // C09: the deferred request is taken out of (and cleared from) the loop-global cell on EVERY path, so it
+            // can never be carried over to a later event or to another source
+            assert(reset_done); /*@props C09*/
+            // C09: an explicit non-Continue return takes precedence over whatever was deferred
+            assert(!(ret0 is Continue) ==> ret == ret0); /*@props C09*/
             // C01/C09/C14: every action below is applied to the source the event belongs to: the lookup key and the
             // registration token handed to reregister/unregister are the event token with the sub-id cleared
             assert(reg_token == event.token.inner.forget()); /*@props C01,C09,C14*/
